@@ -401,6 +401,111 @@ def state_conversions(case, ctx):
            labels=[f'leaves{min(len(model), 5)}'])
 
 
+# ----------------------------------------------------------------------------
+SPLIT_FILTERS = ['Param', 'BatchStat', 'Variable', 'VariableState', 'path:a',
+                 'path:b', 'path:layer', 'tag:t', 'rest', 'nothing']
+
+
+def _mk_filter(name):
+  if name == 'Param':
+    return nnx.Param
+  if name == 'BatchStat':
+    return nnx.BatchStat
+  if name == 'Variable':
+    return nnx.Variable
+  if name == 'VariableState':
+    return nnx.VariableState
+  if name.startswith('path:'):
+    return nnx.PathContains(name[5:])
+  if name.startswith('tag:'):
+    return nnx.WithTag(name[4:])
+  return ... if name == 'rest' else False
+
+
+def _ref_match(name, path, leaf):
+  """Independent statement of the documented filter meanings."""
+  typ = leaf.type if isinstance(leaf, nnx.VariableState) else type(leaf)
+  if name in ('Param', 'BatchStat', 'Variable'):
+    T = {'Param': nnx.Param, 'BatchStat': nnx.BatchStat,
+         'Variable': nnx.Variable}[name]
+    return isinstance(typ, type) and issubclass(typ, T)
+  if name == 'VariableState':
+    return isinstance(leaf, nnx.VariableState)
+  if name.startswith('path:'):
+    return name[5:] in path
+  if name.startswith('tag:'):
+    return getattr(leaf, 'tag', None) == name[4:]
+  return name == 'rest'
+
+
+def _split_case():
+  return st.tuples(
+      state_tree(),
+      st.lists(st.sampled_from(SPLIT_FILTERS), min_size=1, max_size=3),
+      st.sampled_from(['split_state', 'State.split', 'filter_state',
+                       'State.filter']))
+
+
+@clause('split_merge_inverse', strategy=_split_case, quick=2000,
+        thorough=100000,
+        rule='random nested States x 1-3 filters (Variable types, '
+        'VariableState, PathContains, WithTag, ..., nothing; "..." kept last) '
+        'x {split_state, State.split, filter_state, State.filter}: every part '
+        'holds exactly the leaves whose first matching filter it is (same '
+        'leaf objects); split raises ValueError iff some leaf matches no '
+        'filter, otherwise merge_state(*parts) rebuilds the State; a single '
+        'filter gives a State, several a tuple; non-trivial = >=2 filters, '
+        '>=3 leaves and >=2 non-empty parts (or a non-exhaustive split)')
+def split_merge_inverse(case, ctx):
+  tree, names, api = case
+  # "..." is only legal in last position
+  names = [n for n in names if n != 'rest'] + (['rest'] if 'rest' in names
+                                                else [])
+  d = sbuild(tree)
+  model = flat_model(d)
+  s = statelib.State(d)
+  filters = [_mk_filter(n) for n in names]
+  first = {}
+  for p, leaf in model.items():
+    first[p] = next((i for i, n in enumerate(names)
+                     if _ref_match(n, p, leaf)), None)
+  exhaustive = all(i is not None for i in first.values())
+  splitting = api in ('split_state', 'State.split')
+  call = {'split_state': lambda: statelib.split_state(s, *filters),
+          'State.split': lambda: s.split(*filters),
+          'filter_state': lambda: statelib.filter_state(s, *filters),
+          'State.filter': lambda: s.filter(*filters)}[api]
+  if splitting and not exhaustive:
+    expect_raises(ValueError, call, f'{api} with filters {names} although '
+                  f'{sum(i is None for i in first.values())} leaves match '
+                  'no filter')
+    ctx.note(labels=[api, 'non-exhaustive', f'filters{len(names)}'],
+             nontrivial=len(model) >= 2)
+    return
+  with sut(api):
+    parts = call()
+  if len(names) == 1:
+    require(isinstance(parts, statelib.State), lambda: f'{api} with one '
+            f'filter returned {type(parts).__name__}')
+    parts = (parts,)
+  require(isinstance(parts, tuple) and len(parts) == len(names),
+          lambda: f'{api} returned {len(parts)} parts for {len(names)} filters')
+  for i, part in enumerate(parts):
+    got = dict(statelib.to_flat_state(part))
+    exp = {p: model[p] for p, j in first.items() if j == i}
+    require(set(got) == set(exp) and all(got[p] is exp[p] for p in exp),
+            lambda: f'{api}: part {i} (filter {names[i]}) holds '
+            f'{sorted(got)}, first-match partition gives {sorted(exp)}')
+  if splitting:
+    with sut('merge_state'):
+      back = statelib.merge_state(*parts)
+    require(same_tree(back, s), lambda: f'merge_state(*{api}(s)) != s')
+  ctx.note(labels=[api, 'exhaustive' if exhaustive else 'partial',
+                   f'filters{len(names)}'],
+           nontrivial=len(names) >= 2 and len(model) >= 3 and sum(
+               1 for i in range(len(names)) if i in first.values()) >= 2)
+
+
 def _pair_case():
   paths = st.lists(
       st.lists(st.sampled_from(['a', 'b', 'c', 'k']), min_size=1, max_size=3),
